@@ -109,7 +109,11 @@ def build(cfg, ops, sizes, reopen_points=(), new_kwargs=None, schedule=None, wan
     try:
         for i, op in enumerate(ops + [None]):
             for act in (schedule or {}).get(i, ()):
-                do_schedule(iso, act, cfg)
+                try:
+                    do_schedule(iso, act, cfg)
+                except Exception as e:
+                    b.fail = ('schedule', '%s: %s (during the %s inserted before edit %d)' % (type(e).__name__, str(e)[:80], act, i))
+                    return b
             if i in reopen_points:
                 try:
                     img, _ = master(iso)
